@@ -249,6 +249,9 @@ func genReconn(r *Rng, prop string) *Scenario {
 	if prop == "C01" || prop == "C12" {
 		cfg.DirectQoS0 = r.chance(0.2)
 	}
+	if prop == "C01" || prop == "C18" || prop == "C02" {
+		cfg.OnErrorReenters = r.chance(0.15)
+	}
 
 	sc.Ops = append(sc.Ops, Op{AtUs: connectAt, Actor: 0, Kind: "connect"})
 	t := int64(0)
@@ -364,6 +367,7 @@ func genReconn(r *Rng, prop string) *Scenario {
 		case "writeErr":
 			f.N = int(r.between(0, int64(nreq)+2))
 			f.Prefix = int(r.between(0, 6))
+			f.Code = byte(r.IntN(2)) // 1: the transport's error wraps io.EOF
 		case "cutAt", "silentFrom":
 			f.AtUs = r.between(0, lastOp+2*maxBackoff)
 		case "connackRefuse":
@@ -476,12 +480,16 @@ func genReconn(r *Rng, prop string) *Scenario {
 	switch prop {
 	case "C01", "C02", "C03", "C08", "C09", "C12", "C16", "C17":
 		if r.chance(0.25) {
-			sites := []string{"app.onError", "app.onError", "app.connStateActive", "reconn.afterDial", "reconn.afterSetClient", "reconn.afterConnect", "reconn.keepAliveFailed", "reconn.connLost", "reconn.disconnectSeen", "retry.afterTask", "base.afterServe", "base.beforeClosedState", "pub.afterPubRec"}
+			sites := []string{"app.onError", "app.onError", "app.connStateActive", "app.transportClose", "reconn.afterDial", "reconn.afterSetClient", "reconn.afterConnect", "reconn.keepAliveFailed", "reconn.connLost", "reconn.disconnectSeen", "retry.afterTask", "base.afterServe", "base.beforeClosedState", "pub.afterPubRec"}
 			cfg.Yields = map[string]int64{}
 			for i := 0; i < int(r.between(1, 3)); i++ {
 				cfg.Yields[sites[r.IntN(len(sites))]] = r.pickI(10, 100, 500, 2000)
 			}
 		}
+	}
+
+	if prop == "C13" && !cfg.EarlyReply && r.chance(0.25) {
+		cfg.Yields = map[string]int64{"app.transportClose": r.pickI(10, 100, 500)}
 	}
 
 	// horizon: after the last scenario event plus room for the faults to play out
